@@ -214,3 +214,26 @@ Print Assumptions C08_reverse_exact_zero_duration_refuted.
 
 Example C08_reverse_exact_nonvacuous : _ := RecurExact3.C08_reverse_exact_instance.
 Example C08_answers_every_window_nonvacuous : _ := RecurExact3.C08_answers_every_window_instance.
+
+(* ---- tie C (extended): statements about the Gallina translation of the SOURCE TEXT, regenerated from
+   /repo on every run (Gen/Source.v); external calls are function parameters of the generated definitions ---- *)
+From CG Require Import Model.Loop Gen.Source Proofs.GenEq2.
+
+(* RecurringPattern._get_safe_anchor, all four frequencies and both step-back loops *)
+Theorem C08_source_safe_anchor_is_model : forall r sd d,
+  safe_anchor r sd = Some d -> g_safe_anchor_of (S BACK_FUEL) r sd = RDone d.
+Proof. exact g_recur_safe_anchor_eq. Qed.
+Print Assumptions C08_source_safe_anchor_is_model.
+
+(* a forward fetch without a finite start raises ValueError (the property speaks of finite starts) *)
+Theorem C08_source_forward_unbounded_raises : forall r anchor rr b,
+  g_forward_of r anchor rr None b = RRaise Loop.ValueError.
+Proof. exact g_recur_fetch_forward_unbounded. Qed.
+Print Assumptions C08_source_forward_unbounded_raises.
+
+(* RecurringPattern._fetch_reverse (the chunk loop) over the generated forward fetch *)
+Theorem C08_source_reverse_is_model : forall r start e l,
+  fetch_reverse_opt r start e = Ok l ->
+  g_recur_fetch_reverse (reverse_fuel r start e) (r_freq r) (gen_fwd r) start (Some e) = RDone l.
+Proof. exact g_recur_fetch_reverse_composed_eq. Qed.
+Print Assumptions C08_source_reverse_is_model.
